@@ -243,6 +243,30 @@ func constValTerm(c constant.Value, T types.Type) *Term {
 }
 
 func (e *SpecEnv) local(name string) (SVal, bool) {
+	if name == "rangeindex" {
+		// the position in the loop whose head is being looked at: that of the innermost frame
+		f := e.fr
+		if e.fr2 != nil {
+			f = e.fr2
+		}
+		if f != nil && f.block != nil {
+			for _, in := range f.block.Instrs {
+				if p, ok := in.(*ssa.Phi); ok && p.Comment == "rangeindex" {
+					if t, ok := e.st.env[p]; ok {
+						return SVal{t, p.Type()}, true
+					}
+				}
+			}
+			// The loop was a range loop when its clauses were written (rangeindex: the hidden position, -1 before
+			// the first element) and is a counted loop now: a counter c that starts at 0 and goes up by one per
+			// round stands at rangeindex+1 when the loop head is reached.
+			if c := countedLoopCounter(f.block); c != nil {
+				if t, ok := e.st.env[c]; ok {
+					return SVal{Sub(t, IntLit(1)), c.Type()}, true
+				}
+			}
+		}
+	}
 	if v, ok := e.localAsWritten(name); ok {
 		return v, true
 	}
@@ -1356,4 +1380,41 @@ func (v *Verifier) linkFuncValue(st *State, id int64, sig *types.Signature) {
 	}
 	inv := And(typeInv(bv, sig.Params().At(0).Type(), 0)...)
 	st.assume(Forall([]*Term{bv}, Implies(And(inv, pre), post)))
+}
+
+// countedLoopCounter finds, among the phis of a loop head, the one integer variable that enters as the constant 0
+// and comes back as itself plus one.
+func countedLoopCounter(b *ssa.BasicBlock) *ssa.Phi {
+	var found *ssa.Phi
+	for _, in := range b.Instrs {
+		p, ok := in.(*ssa.Phi)
+		if !ok {
+			break
+		}
+		if bt, ok := p.Type().Underlying().(*types.Basic); !ok || bt.Info()&types.IsInteger == 0 {
+			continue
+		}
+		zero, step := false, false
+		for _, e := range p.Edges {
+			switch x := e.(type) {
+			case *ssa.Const:
+				if x.Value != nil && x.Value.String() == "0" {
+					zero = true
+				}
+			case *ssa.BinOp:
+				if x.Op == token.ADD && x.X == ssa.Value(p) {
+					if c, ok := x.Y.(*ssa.Const); ok && c.Value != nil && c.Value.String() == "1" {
+						step = true
+					}
+				}
+			}
+		}
+		if zero && step {
+			if found != nil {
+				return nil
+			}
+			found = p
+		}
+	}
+	return found
 }
